@@ -59,6 +59,11 @@ def make(case):
     return wire(m)
 
 
+def stored(model, name):
+    """The series as the object stores it (observations do not go through the item interface, which the tracer itself uses)."""
+    return model.__dict__['_' + name]
+
+
 def wire(m):
     def solve_t(t, *args, _m=m, **kwargs):
         _m.__dict__['_calls'].append(t + len(_m.span) if t < 0 else t)
@@ -76,7 +81,7 @@ def apply_pre(model, op):
         new = model.copy() if route == 'copy' else (_copy.copy(model) if route == 'copy.copy' else _copy.deepcopy(model))
         return wire(new)           # the recording wrapper is per instance: re-attach it to the copy
     _, name, route, delta = op
-    new = [float(v) + delta for v in model[name]]
+    new = [float(v) + delta for v in stored(model, name)]
     if route == 'setattr':
         setattr(model, name, new)          # a Sequence operand replaces the stored array object
     elif route == 'setitem':
@@ -146,7 +151,7 @@ def check_case(case):
                 left_behind.append((T_, trace_fingerprint(T_)))       # the original stays alive and must not hear of the copy's solves
             T_, U_ = apply_pre(T_, op), apply_pre(U_, op)
             nontrivial = True
-        before_cells = [{nm: float(U_[nm][p]) for nm in VARS} for p in range(n)]
+        before_cells = [{nm: float(stored(U_, nm)[p]) for nm in VARS} for p in range(n)]
         before_trace = trace_state(T_)
         vals_mark = len(U_.__dict__['_vals'])
         calls_mark = len(U_.__dict__['_calls'])
@@ -164,7 +169,7 @@ def check_case(case):
             res.fail(f'differential/{cls}/outcome{changed}', f'{detail}: traced {g!r}, untraced {w!r}')
             return res
         for nm in VARS + ['status', 'iterations']:
-            a, b = np.asarray(T_[nm]), np.asarray(U_[nm])
+            a, b = np.asarray(stored(T_, nm)), np.asarray(stored(U_, nm))
             if not all(same_value(x, y) for x, y in zip(a.tolist(), b.tolist())):
                 res.fail(f'differential/{cls}/{"values" if nm in VARS else nm}', f'{detail}: {nm} traced {a.tolist()}, untraced {b.tolist()}')
                 return res
@@ -240,7 +245,7 @@ def check_case(case):
                              f'the variables {names} were {want_col}')
                     break
             if exp_labels[-1] == 'end' and ow[1] is None:
-                final = [float(T_[nm][p]) for nm in names]
+                final = [float(stored(T_, nm)[p]) for nm in names]
                 if not all(same_value(x, y) for x, y in zip(got_vals[:, -1].tolist(), final)):
                     res.fail(f'trace-content/{cls}/final-snapshot', f'{detail}: period {p}: last snapshot {got_vals[:, -1].tolist()} != stored solution {final}')
     res.nontrivial = nontrivial
